@@ -17,6 +17,23 @@ fn fnv(h: &mut u64, s: &str) {
     }
 }
 
+/// Renumber every variable id of a constraint through `pi`.
+fn renumber(c: &Constraint, pi: &[u32]) -> Constraint {
+    use ezpz_verif_harness::codec::{dec_constraint, enc_constraint};
+    let enc = enc_constraint(c);
+    let t: Vec<&str> = enc.split(' ').collect();
+    let (ni, _) = ezpz_verif_harness::gen_sys::shape_arity(t[0]);
+    let mut out = vec![t[0].to_string()];
+    for (k, tok) in t.iter().enumerate().skip(1) {
+        if k <= ni {
+            out.push(pi[tok.parse::<usize>().unwrap()].to_string());
+        } else {
+            out.push(tok.to_string());
+        }
+    }
+    dec_constraint(&out.join(" ")).unwrap()
+}
+
 fn analysis_fails_at_some_level(sys: &System) -> bool {
     let mut levels: Vec<u32> = sys.reqs.iter().map(|r| r.priority()).collect();
     levels.sort();
@@ -43,6 +60,11 @@ fn main() {
     let mut out: Vec<Violation> = Vec::new();
     let mut digest: u64 = 0xcbf29ce484222325;
     let (mut systems, mut both_ok, mut plain_err, mut analysis_only_err, mut repeats) = (0usize, 0usize, 0usize, 0usize, 0usize);
+    // the systems are generated first, so that the same list can be solved in the listed order or in
+    // reverse (second process): a result that depends on what was solved before (a cache keyed too
+    // coarsely, state left in a thread-local, ...) then shows up as a different per-system fingerprint
+    let reverse = args.get(3).map(|a| a == "rev").unwrap_or(false);
+    let mut all: Vec<System> = Vec::new();
     for i in 0..n {
         let mut sys = match i % 6 {
             0 => gen_planted(&mut rng, 8, 1e-2, &SHAPES),
@@ -79,14 +101,61 @@ fn main() {
         if i % 7 == 6 {
             sys = with_priorities(&mut rng, sys);
         }
+        all.push(sys);
+    }
+    let order: Vec<usize> = if reverse { (0..all.len()).rev().collect() } else { (0..all.len()).collect() };
+    let mut history_free = 0usize;
+    for idx in order {
+        let sys = all[idx].clone();
         systems += 1;
         let a1 = run_plain(&sys, false);
         let a2 = run_plain(&sys, false);
         let b1 = run_plain(&sys, true);
         let b2 = run_plain(&sys, true);
         repeats += 2;
-        fnv(&mut digest, &a1.line());
-        fnv(&mut digest, &b1.line());
+        // order-independent digest: sum of per-system hashes
+        let mut h: u64 = 0xcbf29ce484222325;
+        fnv(&mut h, &idx.to_string());
+        fnv(&mut h, &a1.line());
+        fnv(&mut h, &b1.line());
+        digest = digest.wrapping_add(h);
+        // a structurally similar system solved right after this one (two variables exchanged: same
+        // sizes, same number of entries per column, different incidence) must give the same bits as
+        // when it is solved on a fresh thread with no history
+        if idx % 2 == 0 && sys.guesses.len() >= 2 && sys.guesses.iter().enumerate().all(|(k, g)| g.0 as usize == k) {
+            let nv = sys.guesses.len();
+            for _ in 0..3 {
+                let (a, b) = (rng.below(nv), rng.below(nv));
+                if a == b { continue; }
+                let mut pi: Vec<u32> = (0..nv as u32).collect();
+                pi.swap(a, b);
+                let mut t = sys.clone();
+                t.reqs = sys.reqs.iter().map(|r| ConstraintRequest::new(renumber(r.constraint(), &pi), r.priority())).collect();
+                t.guesses.swap(a, b);
+                for (k, g) in t.guesses.iter_mut().enumerate() { g.0 = k as u32; }
+                let _ = run_plain(&sys, false);
+                let after = run_plain(&t, false).line();
+                let t2 = t.clone();
+                if let Ok(fresh) = std::thread::spawn(move || run_plain(&t2, false).line()).join() {
+                    history_free += 1;
+                    if fresh != after {
+                        out.push(Violation { property: "C10", what: format!("the result depends on what was solved before: {after} right after a structurally similar system, {fresh} on a fresh thread"), signature: "depends-on-call-history".into(), system: Some(t.clone()), extra: format!("previous system: the same with variables {a} and {b} exchanged") });
+                        break;
+                    }
+                }
+            }
+        }
+        // the same solve on a fresh thread (no call history at all) must give the same bits
+        if idx % 4 == 0 {
+            let s2 = sys.clone();
+            let fresh = std::thread::spawn(move || (run_plain(&s2, false).line(), run_plain(&s2, true).line())).join();
+            if let Ok((fa, fb)) = fresh {
+                history_free += 1;
+                if fa != a1.line() || fb != b1.line() {
+                    out.push(Violation { property: "C10", what: format!("the result depends on what was solved before: in sequence {} / {} but on a fresh thread {} / {}", a1.line(), b1.line(), fa, fb), signature: "depends-on-call-history".into(), system: Some(sys.clone()), extra: String::new() });
+                }
+            }
+        }
         let mut bad = |what: String, sig: &str| {
             out.push(Violation { property: "C10", what, signature: sig.into(), system: Some(sys.clone()), extra: String::new() })
         };
@@ -187,7 +256,8 @@ fn main() {
     }
     println!("DIGEST {digest:016x}");
     println!(
-        "STATS {{\"systems\": {systems}, \"both_ok\": {both_ok}, \"both_err\": {plain_err}, \"analysis_only_err\": {analysis_only_err}, \"repeated_calls\": {repeats}, \"texts\": {texts}, \"digest\": \"{digest:016x}\", \"violations\": {}}}",
+        "STATS {{\"systems\": {systems}, \"both_ok\": {both_ok}, \"both_err\": {plain_err}, \"analysis_only_err\": {analysis_only_err}, \"repeated_calls\": {repeats}, \"texts\": {texts}, \"fresh_thread_solves\": {history_free}, \"order\": \"{}\", \"digest\": \"{digest:016x}\", \"violations\": {}}}",
+        if reverse { "reversed" } else { "listed" },
         out.len()
     );
 }
